@@ -255,4 +255,18 @@ def calculate (fo : FloatOps) (op : AOp) (a b : Profile) : CalcRes :=
       | some x, some y => .flt (calcFloat fo op x y)
       | _, _ => .null
 
+/-- the float -1 (units of 2^-1074): the factor of unary minus -/
+def FVal.minusOne : FVal := .fin (-(2 ^ 1074))
+
+/-- eval.go evalUnaryArithmetic (`neg` = the operator is '-'): the operand through ToIntegerStrictly → an Integer
+    (negated as `val * -1` in int64: MinInt64 wraps onto itself), else through ToFloat → a Float (`val * -1` in float
+    arithmetic), else NULL.  Unary plus converts like the binary operators do; it is not the identity. -/
+def evalUnary (fo : FloatOps) (neg : Bool) (a : Profile) : CalcRes :=
+  match a.int? with
+  | some i => .int (if neg then wrap64 (i * -1) else i)
+  | none =>
+    match a.flt? with
+    | some f => .flt (if neg then fo.mul f FVal.minusOne else f)
+    | none => .null
+
 end Csvq
